@@ -92,6 +92,16 @@ def run(cx):
     fmt_blocks = [b.i for b in g.blocks if blk_calls(b, r"fmt::format$")]
     guards = [t for t in g.calls() if re.search(r"ends_with$|extension$|strip_suffix$|PartialEq.*::(eq|ne)$", t.callee or t.declared or "")
               and any(g.dominates(t.bb, b) for b in fmt_blocks)]
+    # an artifact whose file name comes from the configuration (persisted_documents.file) cannot be recognised by
+    # comparing with a fixed list of names: the guard has to look at the extension / suffix
+    dyn_names = [f_ for f_ in fb.fns.values() if f_.crate == "artifact_content" and not f_.root and aggregates(f_, r"ArtifactPath$")
+                 and any(hasattr(d, "rv") and any("file" in p_.fields() for p_ in d.reads()) for d in f_.stmts())
+                 and any(re.search(r"Option::<T>::(map|unwrap_or|map_or|unwrap_or_else)$", t.callee or "") for t in f_.calls())]
+    by_suffix = [t for t in guards if re.search(r"ends_with$|extension$|strip_suffix$", t.callee or t.declared or "")]
+    cx.ob("R13.header-only-on-ts", g.id + "|json-recognised-by-suffix", bool(by_suffix) or not dyn_names or not json_names,
+          "JSON artifacts are recognised by comparing the file name with fixed names, but %s takes its file name from the "
+          "configuration: with a custom persisted-documents file name the header comment is written into a JSON file" % (
+              [f_.name for f_ in dyn_names]), g.loc(hdr[0]["span"][0]))
     cx.ob("R13.header-only-on-ts", g.id + "|header-guarded-by-file-type", bool(guards) or not json_names,
           "the `// header` comment is prepended to every artifact, but the artifact set contains %s: those files are "
           "no longer valid JSON" % json_names, g.loc(hdr[0]["span"][0]))
